@@ -60,12 +60,13 @@ Proof.
 Qed.
 
 (* ---------------------------------------------------------------- per-channel invariant *)
-Definition cinv (c : chan) : Prop :=
+Definition cinv (accept : nat -> chan -> bool) (c : chan) : Prop :=
+  accept_empty accept ->
   queue_kind (c_kind c) = true ->
   count_wake (c_q c) <= c_since c /\ (1 <= c_since c -> c_q c <> []).
 
-Lemma cinv_invalid : cinv invalid_chan.
-Proof. intro H. discriminate H. Qed.
+Lemma cinv_invalid : forall accept, cinv accept invalid_chan.
+Proof. intros accept _ H. discriminate H. Qed.
 
 Lemma count_wake_app : forall a b, count_wake (a ++ b) = count_wake a + count_wake b.
 Proof. intros. unfold count_wake. rewrite filter_app, app_length. reflexivity. Qed.
@@ -77,10 +78,10 @@ Proof.
   unfold count_wake in *. cbn [filter]. destruct (is_wake u); cbn [length]; lia.
 Qed.
 
-Lemma cinv_drain : forall n c, cinv c -> cinv (drain n c).
+Lemma cinv_drain : forall accept n c, cinv accept c -> cinv accept (drain n c).
 Proof.
-  intros n c H K. unfold drain in K |- *. cbn [c_kind c_q c_since] in K |- *.
-  specialize (H K). destruct H as [H1 H2].
+  intros accept n c H HA K. unfold drain in K |- *. cbn [c_kind c_q c_since] in K |- *.
+  specialize (H HA K). destruct H as [H1 H2].
   pose proof (count_wake_skipn n (c_q c)) as P.
   destruct (skipn n (c_q c)) eqn:E.
   - split; [apply Nat.le_refl|]. intros X. inversion X.
@@ -96,14 +97,14 @@ Proof. destruct k; intro H; try discriminate H; reflexivity. Qed.
 (** a wake on a channel that satisfies the invariant keeps it, provided a pipe is written to with
     [write] (a [send] on a pipe is ENOTSOCK: nothing would ever arrive) *)
 Lemma cinv_wake : forall accept clk c m,
-  accept_empty accept -> cinv c -> (c_kind c = KPipe -> m = Write) ->
-  cinv (bump (apply_write (sys_result accept clk c (fst (fst (wake_arm m))) (snd (fst (wake_arm m))) (snd (wake_arm m)))
+  cinv accept c -> (c_kind c = KPipe -> m = Write) ->
+  cinv accept (bump (apply_write (sys_result accept clk c (fst (fst (wake_arm m))) (snd (fst (wake_arm m))) (snd (wake_arm m)))
                           (snd (fst (wake_arm m))) c)).
 Proof.
-  intros accept clk c m HA HC HP K.
+  intros accept clk c m HC HP HA K.
   assert (K' : queue_kind (c_kind c) = true).
   { revert K. unfold bump, apply_write. cbn. destruct (sys_result _ _ _ _ _ _); cbn; auto. }
-  destruct (HC K') as [H1 H2].
+  destruct (HC HA K') as [H1 H2].
   assert (NE : accept clk c = false -> c_q c <> []).
   { intros EA Q. rewrite (HA clk c Q) in EA. discriminate. }
   destruct m; cbn [wake_arm fst snd]; unfold sys_result;
@@ -162,10 +163,10 @@ Proof.
     repeat split; discriminate.
 Qed.
 
-Lemma probe_cinv : forall r c, cinv c -> cinv (apply_write r (snd (fst rr_probe)) c).
+Lemma probe_cinv : forall accept r c, cinv accept c -> cinv accept (apply_write r (snd (fst rr_probe)) c).
 Proof.
-  intros r c H K. destruct r; try exact (H K).
-  unfold apply_write in *. cbn [c_kind c_q c_since] in *. destruct (H K) as [H1 H2].
+  intros accept r c H HA K. destruct r; try exact (H HA K).
+  unfold apply_write in *. cbn [c_kind c_q c_since] in *. destruct (H HA K) as [H1 H2].
   destruct (c_kind c); try discriminate K; cbn [rr_probe fst snd units_of Z.eqb Z.to_nat repeat].
   - rewrite app_nil_r. auto.
   - rewrite app_nil_r. auto.
@@ -205,16 +206,15 @@ Definition attempt_of (cs0 : list chan) (allregs : list reg) (e : event) : Prop 
 Lemma active_for_status : forall sig r, active_for sig r = true -> r_status r = Active.
 Proof. unfold active_for. intros sig r. destruct (r_status r); auto; discriminate. Qed.
 
-Lemma deliver_loop_spec : forall accept, accept_empty accept ->
-  forall allregs cs0 sig rs id clk cs,
+Lemma deliver_loop_spec : forall accept allregs cs0 sig rs id clk cs,
   (forall k r, nth_error rs k = Some r -> nth_error allregs (id + k) = Some r) ->
-  ext cs0 cs -> (forall ch, cinv (getc cs ch)) -> Forall (reg_ok cs0) rs ->
+  ext cs0 cs -> (forall ch, cinv accept (getc cs ch)) -> Forall (reg_ok cs0) rs ->
   ext cs0 (fst (fst (deliver_loop accept rs id sig clk cs))) /\
-  (forall ch, cinv (getc (fst (fst (deliver_loop accept rs id sig clk cs))) ch)) /\
+  (forall ch, cinv accept (getc (fst (fst (deliver_loop accept rs id sig clk cs))) ch)) /\
   map ev_id (snd (deliver_loop accept rs id sig clk cs)) = active_ids_from rs id sig /\
   Forall (attempt_of cs0 allregs) (snd (deliver_loop accept rs id sig clk cs)).
 Proof.
-  intros accept HA allregs cs0 sig rs. induction rs as [|r t IH]; intros id clk cs HI HE HC HR.
+  intros accept allregs cs0 sig rs. induction rs as [|r t IH]; intros id clk cs HI HE HC HR.
   - cbn. split; [exact HE|split; [exact HC|split; [reflexivity|constructor]]].
   - cbn [deliver_loop active_ids_from].
     assert (HIt : forall k r0, nth_error t k = Some r0 -> nth_error allregs (S id + k) = Some r0).
@@ -225,13 +225,13 @@ Proof.
       destruct (wake_arm_good (r_method r)) as [WL WS].
       pose proof (reg_ok_ext _ _ _ HE HRr ST) as [RN RP].
       pose proof (wake_never_blocks accept clk (getc cs (r_ch r)) (r_method r) RN) as NB.
-      pose proof (cinv_wake accept clk (getc cs (r_ch r)) (r_method r) HA (HC (r_ch r)) RP) as CW.
+      pose proof (cinv_wake accept clk (getc cs (r_ch r)) (r_method r) (HC (r_ch r)) RP) as CW.
       destruct (wake_arm (r_method r)) as [[s len] fl] eqn:EW. cbn [fst snd] in *. subst len.
       set (res := sys_result accept clk (getc cs (r_ch r)) s 1%Z fl) in *.
       set (cs1 := updc cs (r_ch r) (fun c => bump (apply_write res 1%Z c))).
       assert (E1 : ext cs0 cs1).
       { eapply ext_trans; [exact HE|]. apply ext_updc. intro c. apply wake_update_preserves. }
-      assert (C1 : forall ch, cinv (getc cs1 ch)).
+      assert (C1 : forall ch, cinv accept (getc cs1 ch)).
       { intro ch. unfold cs1. destruct (getc_updc_cases cs (r_ch r) (fun c => bump (apply_write res 1%Z c)) ch) as [E|(E & _ & E')].
         - rewrite E. apply HC.
         - subst ch. rewrite E'. exact CW. }
@@ -248,8 +248,8 @@ Proof.
 Qed.
 
 (* ---------------------------------------------------------------- the invariant *)
-Record Inv (st : state) : Prop := mkInv {
-  inv_chan : forall ch, cinv (getc (chans st) ch);
+Record Inv (accept : nat -> chan -> bool) (st : state) : Prop := mkInv {
+  inv_chan : forall ch, cinv accept (getc (chans st) ch);
   inv_regs : Forall (reg_ok (chans st)) (regs st);
   inv_close : forall id r, nth_error (regs st) id = Some r ->
               count_close id (evs st) = closes_expected (r_status r);
@@ -296,14 +296,14 @@ Proof.
 Qed.
 
 (** pushing a new registration whose events [en] all concern the fresh descriptor *)
-Lemma Inv_push : forall st cs2 nr en clk,
-  Inv st -> ext (chans st) cs2 -> (forall ch, cinv (getc cs2 ch)) -> reg_ok cs2 nr ->
+Lemma Inv_push : forall accept st cs2 nr en clk,
+  Inv accept st -> ext (chans st) cs2 -> (forall ch, cinv accept (getc cs2 ch)) -> reg_ok cs2 nr ->
   Forall (fun e => ev_id e = length (regs st)) en ->
   count_close (length (regs st)) en = closes_expected (r_status nr) ->
   ok_rev en ->
-  Inv (mkState cs2 (regs st ++ [nr]) clk (en ++ evs st)).
+  Inv accept (mkState cs2 (regs st ++ [nr]) clk (en ++ evs st)).
 Proof.
-  intros st cs2 nr en clk I E C R F K O. destruct I as [Ic Ir Icl If Io].
+  intros accept st cs2 nr en clk I E C R F K O. destruct I as [Ic Ir Icl If Io].
   constructor; cbn [chans regs evs].
   - exact C.
   - apply Forall_app. split; [eapply Forall_reg_ok_ext; eassumption|constructor; [exact R|constructor]].
@@ -323,26 +323,26 @@ Proof.
   intros accept clk c len fl H K. unfold sys_result in H. rewrite K in H. destruct H; discriminate.
 Qed.
 
-Lemma probe_upd : forall cs ch r,
-  (forall x, cinv (getc cs x)) ->
+Lemma probe_upd : forall accept cs ch r,
+  (forall x, cinv accept (getc cs x)) ->
   ext cs (updc cs ch (apply_write r (snd (fst rr_probe)))) /\
-  (forall x, cinv (getc (updc cs ch (apply_write r (snd (fst rr_probe)))) x)).
+  (forall x, cinv accept (getc (updc cs ch (apply_write r (snd (fst rr_probe)))) x)).
 Proof.
-  intros cs ch r C. split.
+  intros accept cs ch r C. split.
   - apply ext_updc. intro c. apply apply_write_preserves.
   - intro x. destruct (getc_updc_cases cs ch (apply_write r (snd (fst rr_probe))) x) as [E|(E & _ & E')].
     + rewrite E. apply C.
     + subst x. rewrite E'. apply probe_cinv. apply C.
 Qed.
 
-Lemma set_flags_upd : forall cs ch c',
+Lemma set_flags_upd : forall accept cs ch c',
   set_flags (getc cs ch) = Some c' ->
-  (forall x, cinv (getc cs x)) ->
+  (forall x, cinv accept (getc cs x)) ->
   ext cs (updc cs ch (fun _ => c')) /\
-  (forall x, cinv (getc (updc cs ch (fun _ => c')) x)) /\
+  (forall x, cinv accept (getc (updc cs ch (fun _ => c')) x)) /\
   c_nonblock (getc (updc cs ch (fun _ => c')) ch) = true.
 Proof.
-  intros cs ch c' H C. destruct (set_flags_spec _ _ H) as (N & K & Q & S & V).
+  intros accept cs ch c' H C. destruct (set_flags_spec _ _ H) as (N & K & Q & S & V).
   pose proof (getc_valid_in_range cs ch V) as L.
   split; [|split].
   - intro x. destruct (getc_updc_cases cs ch (fun _ => c') x) as [E|(E & _ & E')].
@@ -357,19 +357,19 @@ Qed.
 Lemma reg_ok_rejected : forall cs sig ch m, reg_ok cs (mkReg sig ch m Rejected).
 Proof. intros cs sig ch m A. discriminate A. Qed.
 
-Ltac fin_events :=
-  [> repeat constructor
-   | cbn; rewrite ?Nat.eqb_refl; reflexivity
-   | cbn; repeat split; intros; try discriminate; reflexivity ].
+Ltac fin t :=
+  (t; [ repeat constructor
+      | cbn; rewrite ?Nat.eqb_refl; reflexivity
+      | cbn; repeat split; intros; try discriminate; reflexivity ]).
 
-Lemma Inv_register : forall accept st g sig ch o, Inv st -> Inv (register accept st g sig ch o).
+Lemma Inv_register : forall accept st g sig ch o, Inv accept st -> Inv accept (register accept st g sig ch o).
 Proof.
   intros accept st g sig ch o I.
   unfold register, rr_probe, rr_send_pats, rr_then, rr_else, rr_after, register_conv.
   set (id := length (regs st)).
   pose proof (send_result_kind accept (clock st) (getc (chans st) ch) 0%Z 64%Z) as SK.
   set (r := sys_result accept (clock st) (getc (chans st) ch) SysSend 0%Z 64%Z) in *.
-  destruct (probe_upd (chans st) ch r (inv_chan st I)) as [E1 C1].
+  destruct (probe_upd accept (chans st) ch r (inv_chan accept st I)) as [E1 C1].
   change (snd (fst rr_probe)) with 0%Z in E1, C1.
   set (cs1 := updc (chans st) ch (apply_write r 0%Z)) in *.
   assert (SendOk : r = WOk \/ r = WAgain -> reg_ok cs1 (mkReg sig ch Send Active)).
@@ -378,42 +378,185 @@ Proof.
   destruct r eqn:ER; cbn [pres_of existsb pat_matches orb app interp drop_if].
   - (* probe answered 0: send *)
     destruct o; destruct g.
-    all: try (refine (Inv_push st cs1 (mkReg sig ch Send Active)
-                 [EOutcome id true; EProbe id ch SysSend 0%Z 64%Z WOk] _ I E1 C1 (SendOk (or_introl eq_refl)) _ _ _); fin_events).
-    all: refine (Inv_push st cs1 (mkReg sig ch Write Rejected)
-                 [EOutcome id false; EClose id; EProbe id ch SysSend 0%Z 64%Z WOk] _ I E1 C1 (reg_ok_rejected _ _ _ _) _ _ _); fin_events.
+    all: try (fin ltac:(refine (Inv_push accept st cs1 (mkReg sig ch Send Active)
+                 [EOutcome id true; EProbe id ch SysSend 0%Z 64%Z WOk] _ I E1 C1 (SendOk (or_introl eq_refl)) _ _ _))).
+    all: fin ltac:(refine (Inv_push accept st cs1 (mkReg sig ch Write Rejected)
+                 [EOutcome id false; EClose id; EProbe id ch SysSend 0%Z 64%Z WOk] _ I E1 C1 (reg_ok_rejected _ _ _ _) _ _ _)).
   - (* EAGAIN: send *)
     destruct o; destruct g.
-    all: try (refine (Inv_push st cs1 (mkReg sig ch Send Active)
-                 [EOutcome id true; EProbe id ch SysSend 0%Z 64%Z WAgain] _ I E1 C1 (SendOk (or_intror eq_refl)) _ _ _); fin_events).
-    all: refine (Inv_push st cs1 (mkReg sig ch Write Rejected)
-                 [EOutcome id false; EClose id; EProbe id ch SysSend 0%Z 64%Z WAgain] _ I E1 C1 (reg_ok_rejected _ _ _ _) _ _ _); fin_events.
+    all: try (fin ltac:(refine (Inv_push accept st cs1 (mkReg sig ch Send Active)
+                 [EOutcome id true; EProbe id ch SysSend 0%Z 64%Z WAgain] _ I E1 C1 (SendOk (or_intror eq_refl)) _ _ _))).
+    all: fin ltac:(refine (Inv_push accept st cs1 (mkReg sig ch Write Rejected)
+                 [EOutcome id false; EClose id; EProbe id ch SysSend 0%Z 64%Z WAgain] _ I E1 C1 (reg_ok_rejected _ _ _ _) _ _ _)).
   - (* (cannot happen with MSG_DONTWAIT, kept total) other: write *)
     destruct (set_flags (getc cs1 ch)) as [c'|] eqn:SF.
-    + destruct (set_flags_upd cs1 ch c' SF C1) as (E2 & C2 & N2).
+    + destruct (set_flags_upd accept cs1 ch c' SF C1) as (E2 & C2 & N2).
       pose proof (ext_trans _ _ _ E1 E2) as E12.
       assert (WOK : reg_ok (updc cs1 ch (fun _ => c')) (mkReg sig ch Write Active)).
       { intros _. cbn. split; [intros _; exact N2|reflexivity]. }
       destruct o; destruct g.
-      all: try (refine (Inv_push st (updc cs1 ch (fun _ => c')) (mkReg sig ch Write Active)
-                 [EOutcome id true; ESetFlags id ch true; EProbe id ch SysSend 0%Z 64%Z WBlocks] _ I E12 C2 WOK _ _ _); fin_events).
-      all: refine (Inv_push st (updc cs1 ch (fun _ => c')) (mkReg sig ch Write Rejected)
-                 [EOutcome id false; EClose id; ESetFlags id ch true; EProbe id ch SysSend 0%Z 64%Z WBlocks] _ I E12 C2 (reg_ok_rejected _ _ _ _) _ _ _); fin_events.
+      all: try (fin ltac:(refine (Inv_push accept st (updc cs1 ch (fun _ => c')) (mkReg sig ch Write Active)
+                 [EOutcome id true; ESetFlags id ch true; EProbe id ch SysSend 0%Z 64%Z WBlocks] _ I E12 C2 WOK _ _ _))).
+      all: fin ltac:(refine (Inv_push accept st (updc cs1 ch (fun _ => c')) (mkReg sig ch Write Rejected)
+                 [EOutcome id false; EClose id; ESetFlags id ch true; EProbe id ch SysSend 0%Z 64%Z WBlocks] _ I E12 C2 (reg_ok_rejected _ _ _ _) _ _ _)).
     + destruct g.
-      all: refine (Inv_push st cs1 (mkReg sig ch Write Rejected)
-                 [EOutcome id false; EClose id; ESetFlags id ch false; EProbe id ch SysSend 0%Z 64%Z WBlocks] _ I E1 C1 (reg_ok_rejected _ _ _ _) _ _ _); fin_events.
+      all: fin ltac:(refine (Inv_push accept st cs1 (mkReg sig ch Write Rejected)
+                 [EOutcome id false; EClose id; ESetFlags id ch false; EProbe id ch SysSend 0%Z 64%Z WBlocks] _ I E1 C1 (reg_ok_rejected _ _ _ _) _ _ _)).
   - (* ENOTSOCK / EBADF / ...: write *)
     destruct (set_flags (getc cs1 ch)) as [c'|] eqn:SF.
-    + destruct (set_flags_upd cs1 ch c' SF C1) as (E2 & C2 & N2).
+    + destruct (set_flags_upd accept cs1 ch c' SF C1) as (E2 & C2 & N2).
       pose proof (ext_trans _ _ _ E1 E2) as E12.
       assert (WOK : reg_ok (updc cs1 ch (fun _ => c')) (mkReg sig ch Write Active)).
       { intros _. cbn. split; [intros _; exact N2|reflexivity]. }
       destruct o; destruct g.
-      all: try (refine (Inv_push st (updc cs1 ch (fun _ => c')) (mkReg sig ch Write Active)
-                 [EOutcome id true; ESetFlags id ch true; EProbe id ch SysSend 0%Z 64%Z WErr] _ I E12 C2 WOK _ _ _); fin_events).
-      all: refine (Inv_push st (updc cs1 ch (fun _ => c')) (mkReg sig ch Write Rejected)
-                 [EOutcome id false; EClose id; ESetFlags id ch true; EProbe id ch SysSend 0%Z 64%Z WErr] _ I E12 C2 (reg_ok_rejected _ _ _ _) _ _ _); fin_events.
+      all: try (fin ltac:(refine (Inv_push accept st (updc cs1 ch (fun _ => c')) (mkReg sig ch Write Active)
+                 [EOutcome id true; ESetFlags id ch true; EProbe id ch SysSend 0%Z 64%Z WErr] _ I E12 C2 WOK _ _ _))).
+      all: fin ltac:(refine (Inv_push accept st (updc cs1 ch (fun _ => c')) (mkReg sig ch Write Rejected)
+                 [EOutcome id false; EClose id; ESetFlags id ch true; EProbe id ch SysSend 0%Z 64%Z WErr] _ I E12 C2 (reg_ok_rejected _ _ _ _) _ _ _)).
     + destruct g.
-      all: refine (Inv_push st cs1 (mkReg sig ch Write Rejected)
-                 [EOutcome id false; EClose id; ESetFlags id ch false; EProbe id ch SysSend 0%Z 64%Z WErr] _ I E1 C1 (reg_ok_rejected _ _ _ _) _ _ _); fin_events.
+      all: fin ltac:(refine (Inv_push accept st cs1 (mkReg sig ch Write Rejected)
+                 [EOutcome id false; EClose id; ESetFlags id ch false; EProbe id ch SysSend 0%Z 64%Z WErr] _ I E1 C1 (reg_ok_rejected _ _ _ _) _ _ _)).
 Qed.
+
+Lemma drain_preserves : forall n c,
+  c_kind (drain n c) = c_kind c /\ (c_nonblock c = true -> c_nonblock (drain n c) = true).
+Proof. intros. cbn. auto. Qed.
+
+Lemma Inv_drain : forall accept st ch n, Inv accept st ->
+  Inv accept (mkState (updc (chans st) ch (drain n)) (regs st) (clock st) (evs st)).
+Proof.
+  intros accept st ch n [Ic Ir Icl If Io]. constructor; cbn [chans regs evs]; auto.
+  - intro x. destruct (getc_updc_cases (chans st) ch (drain n) x) as [E|(E & _ & E')].
+    + rewrite E. apply Ic.
+    + subst x. rewrite E'. apply cinv_drain. apply Ic.
+  - eapply Forall_reg_ok_ext; [|exact Ir]. apply ext_updc. intro c. apply drain_preserves.
+Qed.
+
+Lemma nth_error_set_status_same : forall rs id s r,
+  nth_error rs id = Some r ->
+  nth_error (set_status rs id s) id = Some (mkReg (r_sig r) (r_ch r) (r_method r) s).
+Proof.
+  induction rs as [|x t IH]; intros id s r H; destruct id; cbn in *; try discriminate.
+  - inversion H. reflexivity.
+  - apply IH. exact H.
+Qed.
+
+Lemma nth_error_set_status_other : forall rs id s id', id' <> id ->
+  nth_error (set_status rs id s) id' = nth_error rs id'.
+Proof.
+  induction rs as [|x t IH]; intros id s id' N; destruct id; destruct id'; cbn; auto; try lia.
+Qed.
+
+Lemma length_set_status : forall rs id s, length (set_status rs id s) = length rs.
+Proof. induction rs as [|x t IH]; intros id s; destruct id; cbn; auto. Qed.
+
+Lemma Forall_set_status : forall (P : reg -> Prop) rs id s,
+  Forall P rs -> (forall r, P (mkReg (r_sig r) (r_ch r) (r_method r) s)) -> Forall P (set_status rs id s).
+Proof.
+  intros P. induction rs as [|x t IH]; intros id s H HP; destruct id; cbn; auto;
+    inversion H; subst; constructor; auto.
+Qed.
+
+Lemma Inv_unregister : forall accept st id, Inv accept st -> Inv accept (unregister st id).
+Proof.
+  intros accept st id I. unfold unregister. destruct (nth_error (regs st) id) as [r|] eqn:EN; [|exact I].
+  destruct (r_status r) eqn:ES; try exact I.
+  destruct I as [Ic Ir Icl If Io].
+  assert (L : id < length (regs st)) by (apply nth_error_Some; congruence).
+  unfold drop_events, drop_ops. cbn [map app].
+  constructor; cbn [chans regs evs].
+  - exact Ic.
+  - apply Forall_set_status; [exact Ir|]. intros r0 A. discriminate A.
+  - intros id' r' H. cbn [count_close]. destruct (Nat.eqb_spec id id') as [EQ|NE].
+    + subst id'. rewrite (nth_error_set_status_same _ _ _ _ EN) in H. inversion H. cbn.
+      rewrite (Icl id r EN). rewrite ES. reflexivity.
+    + rewrite nth_error_set_status_other in H by auto. apply Icl. exact H.
+  - intros id' L'. rewrite length_set_status in L'. cbn [count_close].
+    destruct (Nat.eqb_spec id id'); [lia|]. apply If. exact L'.
+  - cbn. split; [intros; discriminate|exact Io].
+Qed.
+
+(** the events of a delivery are write attempts on descriptors that are not closed *)
+Definition unclosed_attempt (older : list event) (e : event) : Prop :=
+  exists id ch s len fl r, e = EAttempt id ch s len fl r /\ count_close id older = 0.
+
+Lemma count_close_attempts : forall id out older,
+  Forall (fun e => exists i ch s len fl r, e = EAttempt i ch s len fl r) out ->
+  count_close id (rev out ++ older) = count_close id older.
+Proof.
+  intros id out. induction out as [|a t IH]; intros older H; [reflexivity|].
+  inversion H as [|a' t' Ha Ht]; subst. cbn [rev]. rewrite <- app_assoc. cbn [app].
+  rewrite IH by exact Ht. destruct Ha as (i & ch & s & len & fl & r & E). subst. reflexivity.
+Qed.
+
+Lemma ok_rev_attempts : forall out older,
+  ok_rev older -> Forall (unclosed_attempt older) out -> ok_rev (rev out ++ older).
+Proof.
+  induction out as [|a t IH]; intros older O H; [exact O|].
+  inversion H as [|a' t' Ha Ht]; subst. cbn [rev]. rewrite <- app_assoc. cbn [app].
+  destruct Ha as (i & ch & s & len & fl & r & E & C). subst a.
+  apply IH.
+  - cbn. split; [|exact O]. intros id U. apply Nat.eqb_eq in U. subst. exact C.
+  - eapply Forall_impl; [|exact Ht]. intros e (i' & ch' & s' & len' & fl' & r' & E' & C').
+    exists i', ch', s', len', fl', r'. split; [exact E'|]. cbn. exact C'.
+Qed.
+
+Lemma Inv_deliver : forall accept st sig,
+  Inv accept st -> Inv accept (fst (deliver accept st sig)) /\ (accept_empty accept -> delivery_ok accept st sig).
+Proof.
+  intros accept st sig I. unfold delivery_ok, deliver, active_ids.
+  pose proof (deliver_loop_spec accept (regs st) (chans st) sig (regs st) 0 (clock st) (chans st)
+                (fun k r H => H) (ext_refl _) (inv_chan accept st I) (inv_regs accept st I)) as S.
+  destruct (deliver_loop accept (regs st) 0 sig (clock st) (chans st)) as [[cs clk] out].
+  cbn [fst snd] in *. destruct S as (S1 & S2 & S3 & S4).
+  destruct I as [Ic Ir Icl If Io].
+  assert (AT : Forall (fun e => exists i ch s len fl r, e = EAttempt i ch s len fl r) out).
+  { eapply Forall_impl; [|exact S4]. intros e (i & ch & s & fl & r & E & _). eauto 10. }
+  split.
+  - constructor; cbn [chans regs evs].
+    + exact S2.
+    + eapply Forall_reg_ok_ext; eassumption.
+    + intros id r H. rewrite count_close_attempts by exact AT. apply Icl. exact H.
+    + intros id L. rewrite count_close_attempts by exact AT. apply If. exact L.
+    + apply ok_rev_attempts; [exact Io|].
+      eapply Forall_impl; [|exact S4]. intros e (i & ch & s & fl & r & E & _ & _ & rg & RN & RA).
+      exists i, ch, s, 1%Z, fl, r. split; [exact E|]. rewrite (Icl i rg RN). rewrite RA. reflexivity.
+  - intros _. split; [exact S3|].
+    eapply Forall_impl; [|exact S4]. intros e (i & ch & s & fl & r & E & NB & W & _).
+    exists i, ch, s, fl, r. auto.
+Qed.
+
+Lemma Inv_step : forall accept st o, Inv accept st -> Inv accept (step accept st o).
+Proof.
+  intros accept st o I. destruct o; cbn [step].
+  - apply Inv_register. exact I.
+  - apply (Inv_deliver accept st sig I).
+  - apply Inv_drain. exact I.
+  - apply Inv_unregister. exact I.
+Qed.
+
+Lemma Inv_run_from : forall accept h st, Inv accept st -> Inv accept (run_from accept st h).
+Proof.
+  intros accept. induction h as [|o t IH]; intros st I; [exact I|].
+  cbn. apply IH. apply Inv_step. assumption.
+Qed.
+
+Lemma count_wake_map_foreign : forall l, count_wake (map UForeign l) = 0.
+Proof. induction l; [reflexivity|]. unfold count_wake in *. cbn. exact IHl. Qed.
+
+Lemma Inv_init : forall accept w, Inv accept (init w).
+Proof.
+  intros accept w. constructor; cbn [init chans regs evs].
+  - intro ch. unfold getc.
+    destruct (nth_in_or_default ch (map init_chan w) invalid_chan) as [H|H].
+    + apply in_map_iff in H. destruct H as (s & E & _). rewrite <- E.
+      intros _ _. cbn. rewrite count_wake_map_foreign. split; lia.
+    + rewrite H. apply cinv_invalid.
+  - constructor.
+  - intros id r H. destruct id; discriminate H.
+  - reflexivity.
+  - exact I.
+Qed.
+
+Lemma Inv_run : forall accept w h, Inv accept (run accept w h).
+Proof. intros. apply Inv_run_from. apply Inv_init. Qed.
